@@ -70,7 +70,7 @@ PROPS = {
     },
     "C05": {
         "extra": [("mix", 3, 12)], "profile": "defer", "n_quick": 5, "n_thorough": 40, "nops": 18, "nlists": 3, "cfgs": SIX,
-        "corpus": ["defer_codes", "interrupt_defer", "terminate_defer", "defer_action_sub", "defer_action_root"],
+        "corpus": ["defer_codes", "interrupt_defer", "terminate_defer", "defer_action_sub", "defer_action_root", "throw_in_pool"],
         "monitor": None,
         "relevant": M.relevant_by(M.proj(M.ALL, keep_res=True, keep_snap=True, keep_ev=True)),
         "rule": "machines with deferring states inside the documented envelope (deferred event not handled by the same "
@@ -89,6 +89,7 @@ PROPS = {
     },
     "C10": {
         "extra": [("mix", 3, 12)], "profile": "rtc", "n_quick": 5, "n_thorough": 40, "nops": 16, "nlists": 3, "cfgs": SIX,
+        "corpus": ["explicit_completion"],
         "monitor": None,
         "relevant": M.relevant_by(M.proj(M.ALL, keep_res=True, keep_snap=True, keep_ev=True)),
         "monitor": M.mon_C04,
@@ -107,7 +108,7 @@ PROPS = {
     "C12": {
         "profile": "throw", "n_quick": 4, "n_thorough": 30, "nops": 16, "nlists": 3,
         "cfgs": SIX + ["back:p1", "back:p2", "back:p3", "back11:p3", "mp11:p1", "mp11:p2", "mp11:p3", "mp11_fct:p3"],
-        "corpus": ["throw_positions", "throw_nested_entry", "throw_then_submit"],
+        "corpus": ["throw_positions", "throw_nested_entry", "throw_then_submit", "throw_in_pool"],
         "monitor": M.mon_C12,
         "relevant": M.relevant_by(M.proj(M.ALL, keep_res=True, keep_snap=True, keep_ev=True)),
         "rule": "plans make the n-th behaviour invocation of an operation throw std::runtime_error (guards, actions, "
@@ -117,7 +118,7 @@ PROPS = {
     "C09": {
         "extra": [("mix", 3, 12)], "profile": "pseudo", "n_quick": 5, "n_thorough": 40, "nops": 18, "nlists": 3,
         "cfgs": SIX + ["back:p3", "back:p2", "back_fct:p3", "mp11:p3", "mp11_fct:p1"],
-        "corpus": ["exitpt_outside", "exitpt_codes", "exitpt_regions", "fork_auto_region", "fork_partial_none", "fork_partial_shallow_other", "fork_partial_shallow_fork", "fork_partial_always"],
+        "corpus": ["exitpt_outside", "exitpt_codes", "exitpt_regions", "fork_auto_region", "explicit_completion", "rowkind_row", "rowkind_arow", "rowkind_grow", "rowkind_norow", "fork_partial_none", "fork_partial_shallow_other", "fork_partial_shallow_fork", "fork_partial_always"],
         "monitor": None,
         "relevant": M.relevant_by(M.proj(M.ALL, keep_res=True, keep_snap=True, keep_ev=True)),
         "rule": "machines whose submachines have explicit-entry states, forks, entry and exit pseudo states (rows generated "
@@ -184,8 +185,9 @@ PROPS = {
         "assumptions": ["queues are empty at the save point (they are not serialized)"],
     },
     "C17": {
-        "profile": "flags", "n_quick": 5, "n_thorough": 40, "nops": 16, "nlists": 3, "cfgs": SIX,
-        "monitor": None,
+        "profile": "flags", "n_quick": 5, "n_thorough": 40, "nops": 16, "nlists": 3, "cfgs": SIX + ["mp11:p1", "back:p1", "mp11:p2"],
+        "corpus": ["flags_leaving_sub"],
+        "monitor": M.mon_flags_inside, "extra_flags": ("-DH_FLAGOBS",),
         "relevant": M.relevant_by(lambda b: [l for l in b if l.startswith("FLAG") or l.startswith("SNAP")]),
         "rule": "machines with user flags on simple states, submachine states and substates; after every operation "
                 "is_flag_active<F>() and is_flag_active<F, AND>() of the root are compared for every flag",
@@ -203,8 +205,8 @@ PROPS = {
     "C19": {
         "profile": "nest", "n_quick": 3, "n_thorough": 16, "nops": 14, "nlists": 3,
         "cfgs": POL("back") + POL("back11") + POL("mp11") + ["back_fct:p1", "back_fct:p2", "mp11_fct:p3", "mp11_fct:p1", "mp11_fpa:p2"],
-        "corpus": ["exitpt_outside", "rowkind_ep_row", "rowkind_ep_arow", "rowkind_ep_grow", "rowkind_ep_norow"],
-        "monitor": M.both(M.mon_C19, M.mon_spec),
+        "corpus": ["flags_leaving_sub", "exitpt_outside", "rowkind_ep_row", "rowkind_ep_arow", "rowkind_ep_grow", "rowkind_ep_norow"],
+        "monitor": M.both(M.mon_C19, M.mon_spec, M.mon_flags_inside), "extra_flags": ("-DH_FLAGOBS",),
         "relevant": M.relevant_by(M.proj(M.ALL, keep_obs=True)),
         "rule": "seeded random nested machines (profile nest) x 4 policies x engines; every taken external transition "
                 "observed from guard/exit/action/entry; distinct = (policy, phase, machine path, row) combinations whose "
